@@ -704,6 +704,10 @@ func (f *fnCtx) call(c *ast.CallExpr, stmt bool) string {
 					return "(Go.coinsEqual " + r + " " + f.atom(f.expr(c.Args[0])) + ")"
 				}
 			}
+		case kBytes:
+			if m == "Empty" && len(c.Args) == 0 { // sdk.AccAddress.Empty
+				return "(" + f.atom(f.expr(sel.X)) + ".isEmpty)"
+			}
 		case kErr:
 			if m == "Error" {
 				return "(" + f.atom(f.expr(sel.X)) + ".getD \"\")"
@@ -749,6 +753,12 @@ func (f *fnCtx) call(c *ast.CallExpr, stmt bool) string {
 							}
 						}
 					}
+				case kOpaque, kUnit:
+					// an object built in place (an event with its attributes): the integer variables of the function that
+					// occur in its construction, in source order
+					if _, _, isPath := f.pathOf(a); !isPath {
+						ia = append(ia, f.intLocalsIn(a)...)
+					}
 				}
 			}
 			f.effect(types.ExprString(&ast.Ident{Name: f.nameOfRootGo(p.root)})+"."+name, ia)
@@ -772,6 +782,8 @@ func (f *fnCtx) call(c *ast.CallExpr, stmt bool) string {
 					switch f.g.classifySafe(f.typeOf(a)).k {
 					case kNat, kInt, kBig, kSdk, kDec:
 						ia = append(ia, f.asInt(a))
+					case kOpaque, kUnit:
+						ia = append(ia, f.intLocalsIn(a)...)
 					}
 				}
 				f.effect(exprFull(c.Fun), ia)
@@ -788,10 +800,30 @@ func (f *fnCtx) call(c *ast.CallExpr, stmt bool) string {
 }
 
 var effectful = map[string]bool{"SendCoinsFromAccountToModule": true, "SendCoinsFromModuleToModule": true, "SendCoinsFromModuleToAccount": true,
-	"BurnCoins": true, "MintCoins": true, "SendCoins": true, "SaveProofExternalOwnedAccount": true, "SubGas": true, "AddGas": true, "AddBalance": true, "SubBalance": true, "SetNonce": true, "SetState": true,
+	"BurnCoins": true, "MintCoins": true, "SendCoins": true, "SaveProofExternalOwnedAccount": true, "SetupExecutionContext": true, "EmitEvent": true, "EmitEvents": true, "SubGas": true, "AddGas": true, "AddBalance": true, "SubBalance": true, "SetNonce": true, "SetState": true,
 	"SetCode": true, "AddLog": true, "Suicide": true, "ConsumeGas": true, "RefundGas": true, "SetParams": true, "SetBaseFee": true}
 
 func (f *fnCtx) nameOfRootGo(o types.Object) string { return o.Name() }
+
+// intLocalsIn: the integer variables of the function that occur in an expression the translator does not interpret (an
+// event built in place with its attributes), in source order
+func (f *fnCtx) intLocalsIn(a ast.Expr) []string {
+	var ia []string
+	ast.Inspect(a, func(n ast.Node) bool {
+		if id, ok := n.(*ast.Ident); ok {
+			if o, ok := f.localVar(id); ok {
+				switch f.g.classifySafe(o.Type()).k {
+				case kNat, kInt:
+					if _, isRoot := f.roots[o]; !isRoot {
+						ia = append(ia, f.asInt(id))
+					}
+				}
+			}
+		}
+		return true
+	})
+	return ia
+}
 
 func (f *fnCtx) effect(name string, intArgs []string) {
 	f.hasEff = true
@@ -876,6 +908,9 @@ func (f *fnCtx) pkgCall(path, name string, c *ast.CallExpr) string {
 	}
 	if f.kindOf(c).k == kErr {
 		return f.errorCall(c)
+	}
+	if vals, ok := f.opaqueCall(c, 1); ok {
+		return vals[0]
 	}
 	trFail("package function %s.%s", path, name)
 	return ""
